@@ -117,6 +117,7 @@ struct ResourceLayout : Family {
 				nm = randName(r, 1, 7, false) + EXT[r.below(6)];
 				if (!pool.empty() && r.chance(1, 3)) nm = tieProneSibling(pool[r.below(pool.size())], r); // names a sloppy comparison confuses or mis-orders
 				if (r.chance(1, 8)) nm = digestTwin(pool, r, 8); // different names with one 32-bit digest
+				if (!nm.empty() && nm[0] == '_') nm[0] = '^';
 				bool c = nm.find('/') != std::string::npos;
 				for (auto& o : pool) if (ref::nameEqualNoCase(o, nm)) c = true;
 				if (!c) break;
